@@ -8,5 +8,6 @@ CONSTANTS
   TableMethods <- Methods
   TableAbsorbs <- Absorbs
   Emit = FALSE
+  PreFix = FALSE
 INVARIANT TableSoundStrict
 CHECK_DEADLOCK FALSE
